@@ -319,7 +319,10 @@ def part_bitprov(which, pid=None):
         from . import rules_bitprov
         m = module(CFG[0], "ssa")
         n0 = len([o for o in ctx.obligations if o["rule"] == "R-BITPROV"])
-        if pid:
+        if pid == "ALL":
+            # the closure clause of C01 ("every index any function returns is valid") concerns every index-producing operation
+            getattr(rules_bitprov, "check_" + which)(ctx, m, CFG[0], ctx.tier, None)
+        elif pid:
             getattr(rules_bitprov, "check_" + which)(ctx, m, CFG[0], ctx.tier, pid, reach(pid, m)[0])
         else:
             getattr(rules_bitprov, "check_" + which)(ctx, m, CFG[0], ctx.tier)
@@ -430,7 +433,7 @@ def part_ret(ctx):
 
 
 PARTS = {
-    "C01": [part_guards("C01"), part_bitprov("validity"), part_bitprov("indexops", "C01"), part_tables(["T7"], {"T7": ["isBaseCellPentagonArr"]}, pid="C01"), part_cform("C01"), part_wit("C01")],
+    "C01": [part_guards("C01"), part_bitprov("validity"), part_bitprov("indexops", "ALL"), part_tables(["T7"], {"T7": ["isBaseCellPentagonArr"]}, pid="C01"), part_cform("C01"), part_wit("C01")],
     "C02": [part_guards("C02"), part_argmin, part_bitprov("indexops", "C02"), part_tables(["T6", "T16", "T19"], pid="C02"), part_wit("C02")],
     "C03": [part_guards("C03"), part_argmin, part_bitprov("validity"), part_bitprov("indexops", "C03"), part_tables(["T7", "T4", "T5", "T9", "T19", "T21"], {"T7": ["isBaseCellPentagonArr", "pentagonCount", "res0CellCount", "getRes0Cells", "getPentagons", "baseCellNeighbors:rows", "baseCellNeighbor60CCWRots:rows"]}, pid="C03"), part_cform("C03"), part_wit("C03")],
     "C04": [part_guards("C04"), part_errflow("C04"), part_bitprov("indexops", "C04"), part_drain(["cellToChildren"]), part_cform("C04"), part_tables(["T7"], {"T7": ["isBaseCellPentagonArr"]}, pid="C04"), part_wit("C04")],
